@@ -47,6 +47,8 @@ impl VShimIntoVec for [u8] { open spec fn sv(&self) -> Seq<u8> { self@ }
 pub uninterp spec fn spec_vec_capacity<T, A: std::alloc::Allocator>(v: &Vec<T, A>) -> usize;
 pub assume_specification<T, A: std::alloc::Allocator> [std::vec::Vec::<T, A>::capacity] (v: &std::vec::Vec<T, A>) -> (r: usize)
    ensures r == spec_vec_capacity(v), r >= v.len();
+/// R12: `Vec::with_capacity(n)` allocates room for at least n elements (std documentation); vstd's own specification only says "empty"
+#[verifier::external_body] pub fn vshim_with_capacity<T>(n: usize) -> (v: Vec<T>) ensures v@.len() == 0, spec_vec_capacity(&v) >= n { Vec::with_capacity(n) }
 pub assume_specification<T, A: std::alloc::Allocator> [std::vec::Vec::<T, A>::into_boxed_slice] (v: std::vec::Vec<T, A>) -> (r: std::boxed::Box<[T], A>)
    ensures r@ == v@;
 } // verus!
